@@ -59,16 +59,24 @@ def _roots(A):
 def poly_case(draw):
     n = draw(st.integers(1, 8))
     nch = draw(st.integers(2, 5))
-    return {"n": n, "nch": nch, "nref": draw(st.integers(1, 5)), "sgn": draw(st.sampled_from([-1, 1])),
-            "Nf": 4 * (n + 1) + draw(st.integers(0, 300)), "dt": 10.0 ** draw(st.floats(-3, 1)), "extra_ord": draw(st.integers(0, 2)),
-            "scale": draw(st.sampled_from([1.0, 0.3, 2.0])), "seed": draw(st.integers(0, 2**32 - 1))}
+    nref = draw(st.integers(1, 5))
+    Nf = 4 * (n + 1) + draw(st.integers(0, 300))
+    if draw(st.integers(0, 5)) == 0:  # long spectra (segment lengths up to 8192 are ordinary): kept small in the other dimensions
+        Nf = draw(st.sampled_from([1025, 1500, 2049, 3000, 4097]))
+        n, nch, nref = min(n, 3), min(nch, 3), min(nref, 2)
+    return {"n": n, "nch": nch, "nref": nref, "sgn": draw(st.sampled_from([-1, 1])),
+            "Nf": Nf, "dt": 10.0 ** draw(st.floats(-3, 1)), "extra_ord": draw(st.integers(0, 2)),
+            "scale": draw(st.sampled_from([1.0, 0.3, 2.0])), "seed": draw(st.integers(0, 2**32 - 1)),
+            "amp": 10.0 ** draw(st.sampled_from([0.0, 0.0, -2.0, -4.0, -5.0, -6.0, -8.0, 3.0]))}
 
 
 def judge_denominator(case):
     j = J()
     n, nch, nref, sgn, Nf = case["n"], case["nch"], case["nref"], case["sgn"], case["Nf"]
     A, B = _poly(case)
-    j.tag(f"n={n}", "LO" if sgn == -1 else "HI")
+    amp = float(case.get("amp", 1.0))  # overall level of the spectrum (ambient PSDs in SI units are small numbers)
+    B = [b * amp for b in B]
+    j.tag(f"n={n}", "LO" if sgn == -1 else "HI", "amp<1e-4" if amp < 1e-4 else "amp>=1e-4", "Nf>1024" if Nf > 1024 else "Nf<=1024")
     Om = np.exp(sgn * 1j * np.pi * np.arange(Nf) / (Nf - 1))
     Sy = np.empty((nref, nch, Nf), dtype=complex)
     for k, x in enumerate(Om):
@@ -98,7 +106,8 @@ def judge_denominator(case):
     b = np.array(rhs)
     Mr = np.vstack([M.real, M.imag])
     br = np.concatenate([b.real, b.imag])
-    sv = np.linalg.svd(Mr, compute_uv=False)
+    cn = np.linalg.norm(Mr, axis=0)
+    sv = np.linalg.svd(Mr / np.where(cn > 0, cn, 1.0), compute_uv=False)  # column-equilibrated: independent of the spectrum's level
     cond = sv[0] / sv[-1] if sv[-1] > 0 else np.inf
     if not cond <= 3e4:
         j.skip("ls-cond>3e4")
@@ -127,7 +136,7 @@ def judge_denominator(case):
     bt = np.array([B[i] @ Ainv for i in range(n + 1)])  # (n+1, nref, nch)
     gb = np.asarray(Bn[n - 1])
     if j.check(gb.shape == bt.shape, "numerator-shape", lambda: f"{gb.shape} vs {bt.shape}"):
-        errb = np.max(np.abs(gb - bt)) / max(np.max(np.abs(bt)), 1.0)
+        errb = np.max(np.abs(gb - bt)) / max(np.max(np.abs(bt)), amp)
         j.check(errb <= tol, "numerator", lambda: f"order {n} numerator differs from B_i A_{ic}^-1: rel.err {errb:.3e} tol {tol:.3e}")
     return j
 
